@@ -2,3 +2,13 @@ class Outer:
     class Inner:
         class Deep:
             pass
+
+
+import typing
+
+_T = typing.TypeVar("_T")
+
+
+class Holder:
+    class GBox(typing.Generic[_T]):
+        """A user generic nested in a class (annotations like `Holder.GBox[int]`)."""
